@@ -339,6 +339,9 @@ def run(chk):
             c["params"] = {"epsilon": rng.choice([F(1, 1000), F(0)]),
                            "max_iters": rng.choice([1, 2, 3, 5, 8, 100])}
         cases.append(c)
+        sib = R.sibling(c)
+        if sib is not None and name == "MGDA":
+            cases.append(sib)
     corr = []
     for c in cases:
         if c["name"] == "MGDA" and c["params"]["max_iters"] > 8:
@@ -372,6 +375,10 @@ def replay(chk, obj):
     dt = obj.get("dtype", "f64")
     if c["name"] == "MGDA":
         c["params"]["max_iters"] = int(c["params"]["max_iters"])
+        pre = R.presibling(c)
+        if pre is not None:                      # replay the two-call sequence on the reused instance
+            for d in ("f64", "f32"):
+                oracle_mgda(chk, pre, d, found)
         oracle_mgda(chk, c, dt, found)
     elif c["name"] == "CAGrad":
         oracle_cagrad(chk, c, dt, found)
